@@ -274,3 +274,51 @@ Example C01_solution_invariance_nonvacuous :
   (forall r r', (r < 3)%nat -> (r' < 3)%nat -> gram (grainA y 1) r r' 0 = if Nat.eqb r r' then 1 else 0) /\
   grain_det y 1 0 = 1.
 Proof. exact invariance_nonvacuous_proof. Qed.
+(* ---- round 5: the driver around the integrator (Model_minerals: y_start / lsoda_problem_of / solver_loop /
+   init_default), tied to Mineral.update_orientations and Mineral.__post_init__ by the instance lemmas of
+   Inst_minerals_drv.v (generated = model at n_grains = 1, 2, 3) ------------------------------------------- *)
+From PV Require Import Proofs_driver.
+
+(* the vector the integration starts from: extract_vars gives back EXACTLY the caller's F and the last stored
+   snapshot -- on a valid snapshot both clips and the normalisation are identities *)
+Theorem C01_integration_starts_at_last_snapshot : forall (n : nat) (Fd : list R) (s : @snapshot NumR),
+  length Fd = 9%nat -> valid_snapshot n s ->
+  let y0 := @y_start NumR Fd s in
+  @ev_F NumR y0 = Fd /\ @chunks9 NumR (@ev_o NumR y0 n) n = sn_o s /\ @ev_f NumR y0 n = sn_f s.
+Proof. exact start_is_last_snapshot. Qed.
+
+(* an update whose integrator takes several steps stores what `update` makes of the LAST state vector only *)
+Theorem C01_only_last_solver_vector_is_stored : forall n chi (h : @history NumR) (ys : list (list R)) (y : list R),
+  @update_steps NumR n chi h (map Ok (ys ++ [y])) = @update_history NumR n chi h (Ok y).
+Proof. exact update_steps_last. Qed.
+
+(* the history invariant with whole solver loops as updates: any number of updates, each any number of
+   solver steps, any of them failing *)
+Theorem C01_history_invariant_solver_loops : forall n chi (stepss : list (list (res (list R)))) (h : @history NumR),
+  (0 < n)%nat -> 0 <= chi -> hist_inv n h -> Forall (steps_ok n) stepss -> hist_inv n (run_steps n chi h stepss).
+Proof. exact history_inv_steps. Qed.
+
+(* steps_ok asks something of the LAST vector of a loop only; a loop with a failing step is always admissible *)
+Theorem C01_steps_ok_last_vector : forall n (ys : list (list R)) (y : list R),
+  steps_ok n (map Ok (ys ++ [y])) <-> (length y = (9 + 10 * n)%nat /\ 0 < rsum (clipped_fracs y n)).
+Proof. exact steps_ok_last. Qed.
+Theorem C01_steps_ok_failure : forall n (pre : list (list R)) e rest, steps_ok n (map Ok pre ++ Err e :: rest).
+Proof. exact steps_ok_failure. Qed.
+
+(* the default initial snapshot of Mineral.__post_init__ (volumes np.full(n, 1/n), orientations from the
+   Rotation.random oracle): valid whenever the oracle's entries are in [-1, 1] *)
+Theorem C01_default_initial_snapshot_valid : forall n (R0 : list (list R)),
+  (0 < n)%nat -> length R0 = n -> Forall grain_ok R0 -> valid_snapshot n (@init_default NumR n R0).
+Proof. exact init_default_valid. Qed.
+
+(* what is handed to scipy's LSODA satisfies LSODA's own argument checks (it raises ValueError otherwise) *)
+Theorem C01_lsoda_arguments_well_formed : forall (Fd : list R) (s : @snapshot NumR) (t0 t1 : R), t0 <> t1 ->
+  let P := @lsoda_problem_of NumR Fd s t0 t1 in
+  0 < lp_first P <= Rabs (lp_tb P - lp_t0 P) /\ 0 < lp_rtol P /\ Forall (fun a => 0 < a) (lp_atol P)
+  /\ length (lp_atol P) = length (lp_y0 P).
+Proof. exact problem_well_formed. Qed.
+
+Example C01_driver_nonvacuous :
+  length id9 = 9%nat /\ valid_snapshot 2 snap_ex /\ (0 : R) <> 1 /\ 0 < 1 / 1000
+  /\ steps_ok 2 (map Ok ([[]] ++ [@y_start NumR id9 snap_ex])).
+Proof. exact driver_nonvacuous_proof. Qed.
